@@ -59,7 +59,7 @@ def scripts(rng, tier, n=None):
                 # a payload shorter than any tag (0..7 octets), no extension: length arithmetic with the tag at its smallest operand
                 pkt = rtp_packet(ssrcs[0], seq & 0xffff, payload=rand_key(rng, [0, 1, 5, 7][k % 4]), cc=rng.choice([0, 0, 1]))
                 seq += 1
-            elif gaps and not wild and (rng.random() < 0.3 or (forced_late and i == 3)):
+            elif gaps and not wild and ((rng.random() < 0.3 and not (forced_late and i < 3)) or (forced_late and i == 3)):
                 late = gaps.pop(rng.randrange(len(gaps)))
                 pkt = rand_rtp(rng, ssrcs[0], late & 0xffff, ids=list(p.enc_xtn) or None, big=big, ext_p=ext_p)
                 if forced_late and i == 3 and p.enc_xtn:
@@ -68,6 +68,9 @@ def scripts(rng, tier, n=None):
                                      ext=one_byte_ext([(p.enc_xtn[0], rand_key(rng, 3)), (p.enc_xtn[-1], rand_key(rng, 1))]))
             else:
                 pkt = rand_rtp(rng, rng.choice(ssrcs), seq & 0xffff, ids=list(p.enc_xtn) or None, big=big, ext_p=ext_p)
+                if forced_late and i < 3 and p.enc_xtn:
+                    # well-formed packets up to the wrap (a packet srtp_protect refuses would end the judging of this SSRC)
+                    pkt = rtp_packet(ssrcs[0], seq & 0xffff, payload=rand_key(rng, 12), ext=one_byte_ext([(p.enc_xtn[0], rand_key(rng, 2))]))
                 step = rng.choice([1, 1, 2, 5]) if not (forced_late and i < 3) else [2, 1, 1][i]
                 gaps += [seq + d for d in range(1, step)]
                 gaps = gaps[-6:]
